@@ -1336,6 +1336,18 @@ func (ev *Evaluator) apply(fn *ssa.Function, args []Val, pos token.Pos) (Val, er
 		if v, ok := foldPure(key, args); ok {
 			return v, nil
 		}
+		// the 128-bit product with the constant 1 (or 0) is known: high word 0, low word the other factor (0)
+		if key == "math/bits.Mul64" && len(args) == 2 {
+			for i := 0; i < 2; i++ {
+				if c, ok := args[i].(Const); ok && c.V != nil && c.V.Kind() == constant.Int {
+					if k, exact := constant.Uint64Val(c.V); exact && k == 1 {
+						return Tuple{Const{constant.MakeUint64(0)}, args[1-i]}, nil
+					} else if exact && k == 0 {
+						return Tuple{Const{constant.MakeUint64(0)}, Const{constant.MakeUint64(0)}}, nil
+					}
+				}
+			}
+		}
 		t := Term{Fn: key, Args: args}
 		ev.Trace = append(ev.Trace, t.String())
 		return t, nil
